@@ -23,7 +23,8 @@ RULE = (
     "rmax, poles, seam, duplicates, a meridian family placed 1e-6 relative on either side of every bin edge) x "
     "memory form; every case runs the internal route and 4 supplied routes (htmid2 only; +htmrev2 from "
     "esutil.stat.histogram; +minid/maxid; own numpy reverse indices) and compares all of them with each other "
-    "and with the brute-force count.  non-trivial = position on a triangle boundary / list with more than one "
+    "and with the brute-force count.  histories: all sequences of <= 3 (4) calls of lookup_id / intersect / bincount "
+    "on ONE HTM object, last result compared with a fresh object.  non-trivial = position on a triangle boundary / list with more than one "
     "triangle / point sets with pairs both inside and outside [rmin,rmax)."
 )
 ASSUMPTIONS = [
@@ -34,8 +35,8 @@ ASSUMPTIONS = [
     "sanity bound beyond the literal statement: every listed triangle must at least have its bounding circle meet the search circle (a list of all triangles would satisfy coverage vacuously), and the lists contain no duplicates and only ids of the object's depth",
     "bincount: bin edges rmin*(rmax/rmin)^(i/nbin); returned edges compared to 1e-12 relative; pairs within 1e-9 relative of any edge (incl. rmin, rmax) are free, every other pair must be counted exactly once in its bin; only configurations with rmax/scale <= pi rad (rmax <= 180 deg unscaled) are on the lattice",
     "bincount depth is bounded by the size of the reverse-index table (8*4^depth entries when the second set covers the sphere): depth <= 8 for sphere-wide sets, deeper depths only with a second set localised within about a degree",
-    "HTM objects are constructed fresh for every case (the index is immutable after construction; no history part)",
-    "radius-90 circles (hemispheres) are enumerated only for depth <= 6 (thorough 7) because the lists grow as 4^depth",
+    "the lattice parts construct a fresh HTM object for every call; independence of earlier calls on one object is covered by a separate history part (all sequences of <= 3 (thorough 4) calls out of 7, each result compared with the same call on a fresh object)",
+    "radius-90 circles (hemispheres) are enumerated only for depth <= 6 (thorough 8) because the lists grow as 4^depth",
 ]
 
 LD = np.longdouble
@@ -138,6 +139,30 @@ def near_triangles(cen, r, depth):
     return ids, v0, v1, v2
 
 
+def radec(v):
+    """unit vector(s) (long double) -> float64 (ra, dec) in degrees, ra in [0,360)"""
+    v = np.asarray(v, dtype=LD)
+    ra = ((np.arctan2(v[..., 1], v[..., 0]) / D2R) % 360).astype("f8") % 360.0
+    dec = (np.arctan2(v[..., 2], np.hypot(v[..., 0], v[..., 1])) / D2R).astype("f8")
+    return ra, dec
+
+
+def edge_frame(level, tid, j, t):
+    """point M on edge j (vertex j -> vertex j+1) of the level-`level` triangle `tid`, a fraction t along it,
+    and the unit normal n of the edge's great circle pointing INTO that triangle"""
+    vs = triangles([tid], level)
+    a, b = vs[j][0], vs[(j + 1) % 3][0]
+    m = _norm((1 - LD(t)) * a + LD(t) * b)
+    n = _norm(_cross(a, b))
+    return m, n
+
+
+def move(m, n, ang):
+    """from the edge point m go `ang` radians perpendicular to the edge (positive = into the triangle)"""
+    ang = np.asarray(ang, dtype=LD)
+    return np.cos(ang)[..., None] * m + np.sin(ang)[..., None] * n
+
+
 def offset(ra, dec, dist, pa):
     """destination point(s): from (ra,dec) go `dist` degrees along bearing `pa` (east of north); float64 results"""
     ra, dec, dist, pa = [np.asarray(v, dtype=LD) * D2R for v in (ra, dec, dist, pa)]
@@ -200,6 +225,24 @@ def positions(seed):
             for a, d in zip(ra.astype("f8") % 360.0, dec.astype("f8")):
                 pts.append((float(a) + 0.0, float(d) + 0.0))
         ids = np.concatenate([ids * 4 + k for k in range(4)])
+    # vertices and edge midpoints of the level 3..20 triangles around three anchors (own descent: the child
+    # whose interior contains the anchor), i.e. positions on boundaries that only exist at deeper levels
+    for anchor in [(10.0, 20.0), (200.0, -89.9999)] + generic_points(seed, 1):
+        a = unitvec(anchor[0], anchor[1])[None, :]
+        tid = np.arange(8, 16, dtype="i8")
+        v0, v1, v2 = triangles(tid, 0)
+        o, _ = outside(a, v0, v1, v2)
+        j = int(np.argmin(o))
+        v0, v1, v2 = v0[j:j + 1], v1[j:j + 1], v2[j:j + 1]
+        for lev in range(1, 21):
+            ch = _children(v0, v1, v2)
+            oo = [float(outside(a, *c)[0][0]) for c in ch]
+            v0, v1, v2 = ch[int(np.argmin(oo))]
+            if lev >= 3:
+                for sv in samples7(v0, v1, v2)[:6]:
+                    ra = (np.arctan2(sv[:, 1], sv[:, 0]) / D2R) % 360
+                    dec = np.arctan2(sv[:, 2], np.hypot(sv[:, 0], sv[:, 1])) / D2R
+                    pts.append((float(ra.astype("f8")[0] % 360.0), float(dec.astype("f8")[0])))
     seen = set()
     out = []
     for p in pts:
@@ -517,12 +560,16 @@ def main(ctx):
         CENTRES += [(1e-7, 10.0), (180.0, 0.0), (270.0, 0.0), (0.0, 45.0), (20.0, 89.9999), (90.0, 45.0),
                     (225.0, -45.0), (0.0, 22.5), (67.5, 0.0), (360.0, -30.0)] + generic_points(seed, 5)[2:]
     IDEPTHS = (1, 2, 3, 4, 5, 6, 7, 8, 9, 10, 11, 12)
-    RFAC = ctx.pick((0.01, 0.5, 3.0, 20.0), (0.01, 0.1, 0.5, 1.0, 3.0, 8.0, 20.0))
-    D90 = ctx.pick(6, 7)
+    RFAC = ctx.pick((0.01, 0.5, 3.0, 20.0), (0.01, 0.03, 0.1, 0.3, 0.5, 1.0, 2.0, 3.0, 5.0, 8.0, 12.0, 20.0, 40.0))
+    D90 = ctx.pick(6, 8)
     NGRID = ctx.pick((40, 48), (80, 96))
 
     def one_intersect(case, rec):
         ra, dec, depth, radius, sd, ngrid = case
+        return check_circle(case, rec, ra, dec, depth, radius, sd, ngrid)
+
+    def check_circle(case, rec, ra, dec, depth, radius, sd, ngrid, extra=None, tag=""):
+        """all oracles for ONE circle; extra = additional probe positions (ra array, dec array)"""
         nrad, nbear = ngrid
         h = htm.HTM(depth)
         try:
@@ -551,7 +598,7 @@ def main(ctx):
         nid, v0, v1, v2 = near_triangles(cen, rr, depth)
         smp = samples7(v0, v1, v2)
         # ---- oracle A: probe positions looked up with lookup_id
-        rings = [0.999, 1.001] + ([1 - 1e-6, 1 + 1e-6] if radius >= 0.01 else [])
+        rings = [0.999, 1.001, 1 - 1e-6, 1 + 1e-6]
         fr = np.concatenate([np.arange(1, nrad + 1) * (1.6 / nrad), rings])
         pa = np.arange(nbear) * (360.0 / nbear)
         FR, PA = [a.ravel() for a in np.meshgrid(fr * radius, pa)]
@@ -566,6 +613,9 @@ def main(ctx):
         vd = (np.arctan2(sv[:, 2], np.hypot(sv[:, 0], sv[:, 1])) / D2R).astype("f8")
         pr = np.concatenate([pr, [q[0] for q in pts], [ra], vr])
         pd = np.concatenate([pd, [q[1] for q in pts], [dec], vd])
+        if extra is not None:
+            pr = np.concatenate([np.asarray(extra[0], dtype="f8"), pr])
+            pd = np.concatenate([np.asarray(extra[1], dtype="f8"), pd])
         pid = h.lookup_id(pr, pd)
         calls += 1
         s = ld_sep(ra, dec, pr, pd)
@@ -626,7 +676,7 @@ def main(ctx):
             oc += "+hemisphere"
         if abs(dec) == 90.0:
             oc += "+pole-centre"
-        rec.ok(case, outcome=oc, nontrivial=sinc.size > 1, calls=calls)
+        rec.ok(case, outcome=tag + oc, nontrivial=sinc.size > 1, calls=calls)
 
     iunits = []
     for depth in IDEPTHS:
@@ -645,8 +695,63 @@ def main(ctx):
                             probe_grid_radii_x_bearings=list(NGRID), probe_rings=[0.999, 1.001, "1-1e-6", "1+1e-6"],
                             probe_extent="1.6 r"))
 
+    # ---- circles that graze a triangle edge / a triangle vertex
+    # edge: (level, triangle id, edge index, fraction along the edge)
+    GEDGES = [(0, 15, 2, 0.37), (0, 15, 0, 0.5), (0, 15, 1, 0.13), (0, 8, 0, 0.5), (1, 63, 0, 0.5), (1, 63, 2, 0.29),
+              (3, 1005, 0, 0.5), (3, 1005, 1, 0.41)]
+    GRADII = ctx.pick((1e-4, 1e-3, 1e-2, 0.3), (1e-4, 2e-4, 5e-4, 1e-3, 3e-3, 1e-2, 0.05, 0.3, 2.0))
+    GDEPTHS = ctx.pick((1, 6, 12), (1, 3, 6, 9, 12))
+    GK = ctx.pick((3, 5, 6, 7), (2, 3, 4, 5, 6, 7))
+
+    def graze_geometry(edge, side, radius, k):
+        """centre at (1-10^-k) r from the edge on side `side` (+1: inside the named triangle), and three probe
+        positions across the edge inside the circle, 0.1/0.5/0.9 of the sliver deep"""
+        level, tid, j, t = edge
+        m, n = edge_frame(level, tid, j, t)
+        rr = LD(radius) * D2R
+        f = 1 - LD(10) ** (-k)
+        cra, cdec = radec(move(m, n, side * f * rr))
+        g = np.array([0.1, 0.5, 0.9], dtype=LD)
+        pra, pdec = radec(move(m, n, -side * g * (1 - f) * rr))
+        return float(cra), float(cdec), pra, pdec
+
+    def one_graze(case, rec):
+        kind, edge, side, depth, radius, k, sd, ngrid = case
+        if kind == "edge":
+            cra, cdec, pra, pdec = graze_geometry(edge, side, radius, k)
+            return check_circle(case, rec, cra, cdec, depth, radius, sd, ngrid, extra=(pra, pdec),
+                                tag="edge-sliver-1e-%d:" % k)
+        # vertex: the circle passes a vertex of the triangle at (1 -+ 10^-k) r; radius in triangle widths
+        level, tid, j, t = edge
+        vs = triangles([tid], level)
+        vra, vdec = radec(vs[j][0])
+        r = radius * 90.0 / 2 ** depth
+        cra, cdec = offset(float(vra), float(vdec), r * (1 - side * 10.0 ** (-k)), 77.0)
+        return check_circle(case, rec, float(cra), float(cdec), depth, r, sd, ngrid,
+                            extra=(np.array([vra]), np.array([vdec])),
+                            tag="vertex-%s-1e-%d:" % ("inside" if side > 0 else "outside", k))
+
+    gunits = []
+    for edge in GEDGES:
+        for depth in GDEPTHS:
+            if depth < edge[0]:
+                continue
+            for radius in GRADII:
+                for k in GK:
+                    for side in (1, -1):
+                        gunits.append(("edge", edge, side, depth, radius, k, seed, (8, 12)))
+            for wfac in (1.5, 3.0):
+                for k in GK:
+                    for side in (1, -1):
+                        gunits.append(("vertex", edge, side, depth, wfac, k, seed, (8, 12)))
+    ctx.lattice("intersect-grazing", gunits, one_graze,
+                bounds=dict(edges_level_id_edge_fraction=GEDGES, radii=list(GRADII), depths=list(GDEPTHS),
+                            sliver_depth_exponents=list(GK), vertex_radius_in_widths=[1.5, 3.0]))
+
     # ============================================================== bincount
-    BINS = [(0.1, 1.0, 2), (0.01, 10.0, 3), (0.5, 5.0, 1), (0.001, 180.0, 5)]
+    BINS = [(0.1, 1.0, 2), (0.01, 10.0, 3), (0.5, 5.0, 1), (0.001, 180.0, 5), (0.1, 60.0, 3), (0.2, 120.0, 2)]
+    if not ctx.quick:
+        BINS += [(0.03, 3.0, 4), (0.2, 20.0, 2), (1.0, 100.0, 2), (0.04, 0.06, 1), (0.002, 0.2, 7)]
     SCALES = [None, 25.0, ("one", 25.0), ("lin", 20.0, 40.0)]
 
     def scale_value(sc, n1):
@@ -679,8 +784,14 @@ def main(ctx):
             R = np.asarray(D, dtype=LD) * D2R * scv[:, None]
         lo, hi, tlo, thi, edges, flags = brute(R, bins)
         # ---- the real calls
-        a1, d1, a2, d2 = [as_form(v, form) for v in (ra1, dec1, ra2, dec2)]
-        scarg = scale if (scale is None or isinstance(scale, float)) else as_form(scale, form)
+        if form == "scalar1":
+            # the first set (one point) and a one-element scale given as python scalars
+            a1, d1, a2, d2 = float(ra1[0]), float(dec1[0]), ra2.copy(), dec2.copy()
+            scarg = scale if (scale is None or isinstance(scale, float)) else float(scale[0])
+        else:
+            a1, d1, a2, d2 = [as_form(v, form) for v in (ra1, dec1, ra2, dec2)]
+            scarg = scale if (scale is None or isinstance(scale, float)) else as_form(scale, form)
+        idform = "native" if form == "scalar1" else form
         results = {}
         calls = 0
 
@@ -695,7 +806,7 @@ def main(ctx):
             ids = h0.lookup_id(ra2, dec2)
             calls += 1
             mn, mx = int(ids.min()), int(ids.max())
-            results["ids"] = call("ids", htmid2=as_form(ids, form))
+            results["ids"] = call("ids", htmid2=as_form(ids, idform))
             calls += 1
             hh, hrev = stat.histogram(ids - mn, rev=True)
             results["ids+rev"] = call("ids+rev", htmid2=ids, htmrev2=hrev)
@@ -756,7 +867,7 @@ def main(ctx):
     PAIRS_T = PAIRS_Q + [("odd", "even"), ("south", "north"), ("dest", "base"), ("all", "polar"), ("seam", "all"),
                          ("all", "seam"), ("dup", "all"), ("all", "dup"), ("rev", "all"), ("local", "local")]
     bunits = []
-    for depth in ctx.pick((3, 6), (1, 3, 5, 6)):
+    for depth in ctx.pick((3, 6), (1, 2, 3, 4, 5, 6)):
         for bins in BINS:
             for sc in SCALES:
                 if not on_lattice(bins, sc, depth):
@@ -772,6 +883,8 @@ def main(ctx):
                 for form in ("swapped", "strided", "list"):
                     for (s1, s2) in (("base", "all"), ("anchor", "edges")):
                         bunits.append((depth, bins, sc, s1, s2, form, seed))
+                for (s1, s2) in (("one", "all"), ("anchor", "edges")):
+                    bunits.append((depth, bins, sc, s1, s2, "scalar1", seed))
     # depth 8 (sphere-wide second set: 5e5-entry reverse index table) on a reduced product
     for bins in BINS[:3]:
         for sc in (None, 25.0, ("lin", 20.0, 40.0)):
@@ -792,7 +905,7 @@ def main(ctx):
     ctx.lattice("bincount", bunits, one_bincount,
                 bounds=dict(bins=BINS, deep_bins=DEEPBINS, depths=sorted(set(u[0] for u in bunits)), scales=[str(s) for s in SCALES], set_pairs=ctx.pick(PAIRS_Q, PAIRS_T),
                             routes=["internal", "ids", "ids+rev", "ids+rev+minmax", "ids+numpy-rev+minmax",
-                                    "getbins=False"], forms=["native", "swapped", "strided", "list"]))
+                                    "getbins=False"], forms=["native", "swapped", "strided", "list", "scalar1"]))
 
     # ---- supplied ids / reverse indices in other dtypes, byte orders and strides
     def one_revform(case, rec):
@@ -837,3 +950,51 @@ def main(ctx):
               for w in ("rev>i8", "rev-i4", "rev-f8", "rev-strided", "rev-list", "ids>i8", "ids-strided", "both>i8")]
     ctx.lattice("bincount-supplied-forms", runits, one_revform,
                 bounds=dict(forms=sorted(set(u[2] for u in runits)), depths=[3, 6]))
+
+    # ======================================= one object, several calls (E2)
+    HOPS = (("id", 0), ("id", 1), ("isect", 0), ("isect", 1), ("count", 0), ("count", 1), ("count", 2))
+    HDEPTH = 6
+
+    def hist_do(h, op):
+        ra, dec, tags = bpoints(0)
+        if op[0] == "id":
+            sl = slice(0, 40) if op[1] == 0 else slice(40, None)
+            return [h.lookup_id(ra[sl], dec[sl])]
+        if op[0] == "isect":
+            c, r = ((10.0, 20.0), 3.0) if op[1] == 0 else ((0.0, 90.0), 0.4)
+            return [np.sort(h.intersect(c[0], c[1], r)), np.sort(h.intersect(c[0], c[1], r, inclusive=False))]
+        i1 = bselect("base", ra, dec, tags)
+        if op[1] == 0:
+            return list(h.bincount(0.1, 1.0, 2, ra[i1], dec[i1], ra, dec))
+        if op[1] == 1:
+            return list(h.bincount(0.01, 10.0, 3, ra[i1], dec[i1], ra, dec, scale=np.linspace(20.0, 40.0, i1.size)))
+        ids = h.lookup_id(ra, dec)
+        mn, mx = int(ids.min()), int(ids.max())
+        return list(h.bincount(0.5, 5.0, 1, ra[i1], dec[i1], ra, dec, scale=25.0, htmid2=ids,
+                               htmrev2=reverse_indices(ids, mn, mx), minid=mn, maxid=mx))
+
+    fresh_cache = {}
+
+    def execute(hist, rec):
+        h = htm.HTM(HDEPTH)
+        last = None
+        for op in hist:
+            try:
+                last = hist_do(h, op)
+            except Exception as e:
+                rec.fail(hist, "%r raised %s: %s" % (op, type(e).__name__, e))
+                return None
+        if hist:
+            op = hist[-1]
+            if op not in fresh_cache:
+                fresh_cache[op] = hist_do(htm.HTM(HDEPTH), op)
+            for a, b in zip(last, fresh_cache[op]):
+                if not (np.asarray(a).shape == np.asarray(b).shape and np.array_equal(a, b)):
+                    rec.fail(hist, "result of %r after %r differs from the same call on a fresh HTM object: %r vs %r"
+                             % (op, hist[:-1], np.asarray(a).tolist()[:12], np.asarray(b).tolist()[:12]))
+                    return None
+        return "HTM(%d)" % h.get_depth(), HOPS
+
+    hd = ctx.pick(3, 4)
+    ctx.histories("one-object-call-sequences", [()], execute, depth=hd, nodedup_depth=hd,
+                  bounds=dict(ops=[str(o) for o in HOPS], depth=hd, htm_depth=HDEPTH))
